@@ -47,6 +47,7 @@ namespace bxdecay0 {
 
   void Se76low(i_random & prng_, event & event_, const int levelkev_)
   {
+    BXDECAY0_VERIF_SCOPE("scheme:Se76low", levelkev_);
     // static const double pi = M_PI;
     static const double twopi = 2 * M_PI;
     // double t;
